@@ -20,12 +20,12 @@ Batch == IF Thorough THEN Shapes(4, 2) \cup Shapes(2, 3)
          ELSE Shapes(2, 2) \cup {<<3>>, <<1, 3>>, <<2, 1, 2>>, <<1, 2, 1, 2>>}
 BPairs == SetToSeq({p \in Batch \X Batch : BCompatible(p[1], p[2])})
 Sz == IF Thorough THEN 1..3 ELSE 1..2
-MNK == SetToSeq((Sz \X Sz \X Sz) \cup {<<3, 2, 1>>, <<1, 3, 2>>, <<2, 1, 3>>})
+MNK == SetToSeq((Sz \X Sz \X Sz) \cup {<<3, 2, 1>>, <<1, 3, 2>>, <<2, 1, 3>>, <<4, 5, 4>>, <<5, 1, 7>>, <<1, 6, 1>>})
 
 MatMulDescs == Flatten2([i \in DOMAIN BPairs |-> [j \in DOMAIN MNK |->
                   <<"mm", BPairs[i][1] \o <<MNK[j][1], MNK[j][2]>>, BPairs[i][2] \o <<MNK[j][2], MNK[j][3]>>>>]])
 DotDescs == Flatten2([i \in DOMAIN BPairs |-> [k \in 1..3 |-> <<"dot", BPairs[i][1] \o <<k>>, BPairs[i][2] \o <<k>>>>]])
-TGrid == IF Thorough THEN Shapes(4, 3) \cup Shapes(6, 2) ELSE Shapes(3, 2) \cup Shapes(2, 3) \cup {<<2, 1, 2, 3>>, <<2, 1, 1, 2, 2>>, <<1, 2, 1, 2, 1, 2>>}
+TGrid == IF Thorough THEN Shapes(4, 3) \cup Shapes(6, 2) ELSE Shapes(3, 2) \cup Shapes(2, 3) \cup {<<2, 1, 2, 3>>, <<2, 1, 1, 2, 2>>, <<1, 2, 1, 2, 1, 2>>, <<4, 5>>, <<2, 5, 4>>, <<3, 2, 4, 7>>}
 TrDescs == LET s == SetToSeq({d \in TGrid : Len(d) >= 2}) IN [i \in DOMAIN s |-> <<"tr", s[i], <<>>>>]
 (* rejected: inner sizes differ, rank too small, batch shapes incompatible *)
 BadDescs == <<
